@@ -22,6 +22,9 @@ def obligations(tier):
         ch("text_hop", "harness.C08_chain", timeout=T, functions=("SRT/WebVTT/MicroDVD write() then read()",), bounds="a text line of 1-3 arbitrary printable code points through write+read of the three pure-Python formats (markup syntax of WebVTT excluded: C03+C04)"),
         ch("text_hop_vtt_amp", "harness.C08_chain", timeout=T, functions=("WebVTTWriter.write", "_encode_illegal_characters", "WebVTTReader.read", "_decode"), bounds="text '&' + 3 arbitrary printable code points (entity-looking text) through the WebVTT hop: exactly one level of references is decoded"),
         ch("text_hop_sami2" if q else "text_hop_sami3", "harness.C08_chain", timeout=T if q else 3 * T, functions=("SAMIWriter._recreate_text/_encode", "SAMIParser.feed", "SAMIReader.read/_translate_tag"), exhaustive=True, bounds=f"text 'x' + {'two' if q else 'three'} characters over & ; > < a # space through the SAMI hop (real SAMIParser; tree builder html.parser)"),
+        ch("struct_chain", "harness.C08_chain", timeout=T, functions=("SRT/WebVTT/MicroDVD write() and read(), chained",), exhaustive=True,
+           bounds="executed chains f1, f2, f1, f2 over the 9 ordered pairs of SRT / WebVTT / MicroDVD x 5 cue shapes (two lines, empty line, whitespace-only line, three lines, trailing break): cue count, text lines, times unchanged"),
+        smt("dfxp_clock_ms", "smt.C01_fp", "dfxp_clock_fraction", args=dict(k=3, hmax=99), timeout=600, engine="E2 fplia (AST -> QF_LIA, z3)"),
         smt("mdvd_read_start", "smt.C01_fp", "microdvd_read_public", args=dict(fps_text="25.0", which="start", nmax=90000000), timeout=600, engine="E2 fplia (AST of read() + inlined helpers -> QF_LIA, z3)"),
         smt("mdvd_read_end", "smt.C01_fp", "microdvd_read_public", args=dict(fps_text="25.0", which="end", nmax=90000000), timeout=600, engine="E2 fplia (AST of read() + inlined helpers -> QF_LIA, z3)"),
         smt("mdvd_write", "smt.C02_fp", "microdvd_write", timeout=600, engine="E2 fplia (AST -> QF_LIA, z3)"),
